@@ -533,14 +533,17 @@ def follow (m : Method) (b : BodyKind) (r : Resp) : Option (Method × BodyKind) 
   else none
 
 /-- One logical request.  `resps` are the registry's answers to the successive physical requests
-    (a missing answer is `200` without `Location`).  Returns the physical requests as
+    (a missing answer is `200` without `Location`; status `0` stands for NO answer: the transport
+    fails or the request's context is cancelled — `http.Client.Do` returns an error).  Returns the physical requests as
     (method, status answered) and the response the caller gets — `none` when net/http gives up
     ("stopped after 10 redirects"; `sent` = requests sent so far). -/
 def exchangeFrom : Nat → Nat → Method → BodyKind → List Resp → List (Method × Nat) × Option Resp
   | 0, _, m, _, rs => ([(m, (rs.headD ⟨200, false⟩).status)], none)
   | fuel + 1, sent, m, b, rs =>
     let r := rs.headD ⟨200, false⟩
-    match follow m b r with
+    -- status 0: the request fails without an answer (transport error; the context was cancelled)
+    if r.status = 0 then ([(m, 0)], none)
+    else match follow m b r with
     | none => ([(m, r.status)], some r)
     | some (m', b') =>
       if sent ≥ 10 then ([(m, r.status)], none)
